@@ -408,6 +408,7 @@ func runScenario(sc *Scenario, r *zsimrt.Rand, replay []zsimrt.Decision) *Outcom
 			GCPermil:  sc.Sched.GCPermil,
 			StallPerm: sc.Sched.StallPermil,
 			StallMean: sc.Sched.StallMean,
+			SyncQ:     sc.Sched.SyncQ,
 			HookEvery: sc.O2Every,
 			StepCap:   5_000_000,
 		}
@@ -470,8 +471,10 @@ func runScenario(sc *Scenario, r *zsimrt.Rand, replay []zsimrt.Decision) *Outcom
 		}
 	}
 
+	ensureDrivers(sc.Cold)
 	if sc.Cold {
 		sim()
+		ensureDrivers(false)
 		passA()
 		passB()
 	} else {
